@@ -629,11 +629,12 @@ def r12_9(run):
 RULES.append(("R12.9", r12_9))
 
 EXPLANATION += (' ' + "(R12.10) net['_internal_data'] is the one container that survives a call (option reuse_internal_data): the only function "
-                "that stores into it (directly or through a local alias, by item store, update or setdefault) is build_system_matrix, and the only keys are "
+                "module that stores into it (directly or through a local alias, by item store, update or setdefault) is pf/build_system_matrix.py, and the only keys are "
                 "the sparsity pattern entries 'hydraulic_data_sorting' and 'hydraulic_matrix'. Anything else kept there (a looked-up pump curve, a fluid "
                 "value, a table column) is read again by the next call although the tables it came from may have been edited in between.")
 
-_INTERNAL_DATA_WRITERS = {"pandapipes.pf.build_system_matrix.build_system_matrix": {"hydraulic_data_sorting", "hydraulic_matrix"}}
+_INTERNAL_DATA_KEYS = {"hydraulic_data_sorting", "hydraulic_matrix"}
+_INTERNAL_DATA_MODULE = "pandapipes.pf.build_system_matrix"
 
 
 def r12_10(run):
@@ -654,9 +655,11 @@ def r12_10(run):
         run.analysed(fi)
         aliases = set()
         for st in ast.walk(fi.raw_node):
-            if isinstance(st, ast.Assign) and "_internal_data" in U(st.value) and isinstance(st.value, (ast.Subscript, ast.Call, ast.Attribute, ast.Name)):
+            if isinstance(st, ast.Assign) and "_internal_data" in U(st.value) and isinstance(st.value, (ast.Subscript, ast.Call, ast.Attribute, ast.Name, ast.IfExp)):
                 # an alias of the container itself (net["_internal_data"], net.get("_internal_data"), net._internal_data), not of an entry
                 v = st.value
+                if isinstance(v, ast.IfExp):
+                    v = v.body if "_internal_data" in U(v.body) else v.orelse
                 is_container = (isinstance(v, ast.Subscript) and const_str(v.slice) == "_internal_data") or \
                     (isinstance(v, ast.Call) and isinstance(v.func, ast.Attribute) and v.func.attr in ("get", "setdefault")
                      and v.args and const_str(v.args[0]) == "_internal_data") or \
@@ -673,23 +676,32 @@ def r12_10(run):
                 return True
             return False
 
-        allowed = _INTERNAL_DATA_WRITERS.get(fi.qualname, set())
+        allowed = _INTERNAL_DATA_KEYS if fi.module == _INTERNAL_DATA_MODULE else set()
+
+        def key_of(e):
+            k = const_str(e)
+            if k is None and e is not None:
+                try:
+                    k = ix.eval_const(fi.module, e)
+                except Exception:     # noqa
+                    k = None
+            return k if isinstance(k, str) else (U(e) if e is not None else None)
         for st in ast.walk(fi.raw_node):
             sites = []
             if isinstance(st, (ast.Assign, ast.AugAssign, ast.AnnAssign)):
                 tg = st.targets if isinstance(st, ast.Assign) else [st.target]
                 for t in tg:
                     if isinstance(t, ast.Subscript) and is_container_expr(t.value):
-                        sites.append((const_str(t.slice), st))
+                        sites.append((key_of(t.slice), st))
             elif isinstance(st, ast.Call) and isinstance(st.func, ast.Attribute) and st.func.attr in ("update", "setdefault", "__setitem__") \
                     and is_container_expr(st.func.value):
-                ks = [kw.arg for kw in st.keywords] or [const_str(a) if const_str(a) is not None else U(a) for a in st.args[:1]]
+                ks = [kw.arg for kw in st.keywords] or [key_of(a) for a in st.args[:1]]
                 for k in ks:
                     sites.append((k, st))
             for k, node in sites:
                 n_sites += 1
                 run.ob("%s|_internal_data[%s]|whitelisted-writer-and-key" % (fi.short, k), k in allowed,
-                       "only build_system_matrix stores into net['_internal_data'], and only the sparsity pattern "
+                       "only pf/build_system_matrix.py stores into net['_internal_data'], and only the sparsity pattern "
                        "('hydraulic_data_sorting', 'hydraulic_matrix'): the container outlives the call under reuse_internal_data", run.where(fi, node))
     run.stat("functions_touching_internal_data", n_funcs)
     run.stat("stores_into_internal_data", n_sites)
